@@ -1,6 +1,6 @@
 (* Proofs/SyncProofs.v -- lemmas about Model/Sync.v (C10). *)
 From Coq Require Import List NArith Bool Arith Lia.
-From Verif Require Import Base.Str Model.Sync.
+From Verif Require Import Base.Str Gen.GenSync Model.Sync.
 Import ListNotations.
 Arguments N.eqb : simpl never.
 Local Open Scope nat_scope.
@@ -325,7 +325,7 @@ Proof. intros st nd [i|] H; cbn [map_of valid_ref] in *; auto. now apply map_at_
 
 Lemma wf_init : forall n, wf (init n).
 Proof.
-  intro n. unfold wf, init; cbn [store_of clones remote fuel_out].
+  intro n. unfold wf, init; cbn [store_of clones remote fuel_out rej].
   split; [|split; [|split]]; cbn; auto.
   - intros i nd H. destruct i; discriminate.
   - intros c cl H. apply nth_error_In in H. apply repeat_spec in H. subst. cbn. auto.
@@ -342,49 +342,51 @@ Inductive shape (s : state) : step -> state -> Prop :=
     shape s (Commit c k v)
       (set_clone (add_node s (mkNode (par (local cl)) (upsert k v (map_of (store_of s) (local cl)))))
                  c (mkClone (Some (length (store_of s))) (tracking cl) (pending cl)))
-| sh_fetch : forall c cl r,
+| sh_fetch : forall r0 c cl r,
     nth_error (clones s) c = Some cl -> remote s = Some r ->
-    shape s (FetchTracking c) (set_clone s c (mkClone (local cl) (Some r) (pending cl)))
-| sh_test : forall c cl,
+    shape s (FetchTracking r0 c) (set_clone s c (mkClone (local cl) (Some r) (pending cl)))
+| sh_test : forall r0 c cl,
     nth_error (clones s) c = Some cl ->
-    shape s (TestLocal c) (set_clone s c (mkClone (local cl) (tracking cl) (Some (is_some (local cl)))))
-| sh_clear : forall c cl,
+    shape s (TestLocal r0 c) (set_clone s c (mkClone (local cl) (tracking cl) (Some (is_some (local cl)))))
+| sh_clear : forall r0 c cl,
     nth_error (clones s) c = Some cl -> tracking cl = None ->
-    shape s (MergeLocal c) (set_clone s c (mkClone (local cl) None None))
-| sh_copy : forall c cl t,
+    shape s (MergeLocal r0 c) (set_clone s c (mkClone (local cl) None None))
+| sh_copy : forall r0 c cl t,
     nth_error (clones s) c = Some cl -> tracking cl = Some t -> local cl = None ->
-    shape s (MergeLocal c) (set_clone s c (mkClone (Some t) (Some t) None))
-| sh_overwrite : forall c cl t l,
+    shape s (MergeLocal r0 c) (set_clone s c (mkClone (Some t) (Some t) None))
+| sh_overwrite : forall r0 c cl t l,
     nth_error (clones s) c = Some cl -> tracking cl = Some t -> local cl = Some l ->
     pending cl = Some false ->
-    shape s (MergeLocal c) (set_clone s c (mkClone (Some t) (Some t) None))
-| sh_keep : forall c cl l t,
+    shape s (MergeLocal r0 c) (set_clone s c (mkClone (Some t) (Some t) None))
+| sh_keep : forall r0 c cl l t,
     nth_error (clones s) c = Some cl -> tracking cl = Some t -> local cl = Some l ->
     anc (length (store_of s)) (store_of s) t l = Yes ->
-    shape s (MergeLocal c) (set_clone s c (mkClone (Some l) (Some t) None))
-| sh_ff : forall c cl l t,
+    shape s (MergeLocal r0 c) (set_clone s c (mkClone (Some l) (Some t) None))
+| sh_ff : forall r0 c cl l t,
     nth_error (clones s) c = Some cl -> tracking cl = Some t -> local cl = Some l ->
     anc (length (store_of s)) (store_of s) l t = Yes ->
-    shape s (MergeLocal c) (set_clone s c (mkClone (Some t) (Some t) None))
-| sh_merge : forall c cl l t bm,
+    shape s (MergeLocal r0 c) (set_clone s c (mkClone (Some t) (Some t) None))
+| sh_merge : forall r0 c cl l t bm,
     nth_error (clones s) c = Some cl -> tracking cl = Some t -> local cl = Some l ->
     sub_keys bm (map_at (store_of s) l) -> sub_keys bm (map_at (store_of s) t) ->
-    shape s (MergeLocal c)
+    shape s (MergeLocal r0 c)
       (set_clone (add_node s (mkNode [l; t] (merge_map bm (map_at (store_of s) l) (map_at (store_of s) t))))
                  c (mkClone (Some (length (store_of s))) (Some t) None))
-| sh_push : forall c cl l,
+| sh_push : forall r0 c cl l,
     nth_error (clones s) c = Some cl -> local cl = Some l ->
     (remote s = None \/ exists r, remote s = Some r /\ anc (length (store_of s)) (store_of s) r l = Yes) ->
-    shape s (PushRef c) (set_remote s (Some l)).
+    shape s (PushRef r0 c) (set_flag (set_remote s (Some l)) c false)
+| sh_flag : forall r0 c b, shape s (PushRef r0 c) (set_flag s c b).
 
 Lemma exec_shape : forall s x, wf s -> shape s x (exec s x).
 Proof.
-  intros s x (Hst & Hcl & Hrm & Hfo). destruct x as [c k v|c|c|c|c]; cbn [exec].
+  intros s x (Hst & Hcl & Hrm & Hfo). destruct x as [c k v|r c|r c|r c|r c]; cbn [exec];
+    try (destruct (skip s r c); [constructor|]).
   - destruct (nth_error (clones s) c) as [cl|] eqn:Hc; [|constructor].
     replace (match local cl with Some l => [l] | None => [] end) with (par (local cl)) by reflexivity.
     now apply sh_commit.
   - destruct (nth_error (clones s) c) as [cl|] eqn:Hc; [|constructor].
-    destruct (remote s) as [r|] eqn:Hr; [|constructor]. now apply sh_fetch.
+    destruct (remote s) as [r'|] eqn:Hr; [|constructor]. now apply sh_fetch.
   - destruct (nth_error (clones s) c) as [cl|] eqn:Hc; [|constructor].
     replace (match local cl with Some _ => true | None => false end) with (is_some (local cl)) by reflexivity.
     now apply sh_test.
@@ -403,25 +405,25 @@ Proof.
       * contradiction.
     + destruct (local cl) as [l|] eqn:Hl; [eapply sh_overwrite; eauto|eapply sh_copy; eauto].
   - unfold push_outcome. destruct (nth_error (clones s) c) as [cl|] eqn:Hc; [|constructor].
-    destruct (local cl) as [l|] eqn:Hl; [|constructor].
-    destruct (remote s) as [r|] eqn:Hr.
+    destruct (local cl) as [l|] eqn:Hl; [|apply sh_flag].
+    destruct (remote s) as [r'|] eqn:Hr.
     + destruct (Hcl c cl Hc) as [Vl _]. rewrite Hl in Vl. cbn [valid_ref] in Vl.
-      destruct (anc (length (store_of s)) (store_of s) r l) eqn:A.
+      destruct (anc (length (store_of s)) (store_of s) r' l) eqn:A.
       * eapply sh_push; eauto.
-      * constructor.
-      * exfalso. exact (anc_fuel _ Hst _ r l Vl A).
+      * apply sh_flag.
+      * exfalso. exact (anc_fuel _ Hst _ r' l Vl A).
     + eapply sh_push; eauto.
 Qed.
 
 Ltac shape_cases Sh :=
-  destruct Sh as [x | c k v cl Hc | c cl r Hc Hr | c cl Hc | c cl Hc Ht | c cl t Hc Ht Hl
-                 | c cl t l Hc Ht Hl Hpd | c cl l t Hc Ht Hl Ha | c cl l t Hc Ht Hl Ha
-                 | c cl l t bm Hc Ht Hl B1 B2 | c cl l Hc Hl Hp].
+  destruct Sh as [x | c k v cl Hc | r0 c cl r Hc Hr | r0 c cl Hc | r0 c cl Hc Ht | r0 c cl t Hc Ht Hl
+                 | r0 c cl t l Hc Ht Hl Hpd | r0 c cl l t Hc Ht Hl Ha | r0 c cl l t Hc Ht Hl Ha
+                 | r0 c cl l t bm Hc Ht Hl B1 B2 | r0 c cl l Hc Hl Hp | r0 c b].
 
 Lemma wf_shape : forall s x s', wf s -> shape s x s' -> wf s'.
 Proof.
   intros s x s' H Sh. pose proof H as (Hst & Hcl & Hrm & Hfo).
-  shape_cases Sh; auto; unfold wf; cbn [set_clone add_node set_remote store_of clones remote fuel_out];
+  shape_cases Sh; auto; unfold wf; cbn [set_clone add_node set_remote set_flag store_of clones remote fuel_out rej];
     destruct (Hcl c cl Hc) as [Vl Vt].
   - split; [|split; [|split]]; auto.
     + apply wf_store_snoc; auto. intros p Hp. destruct (local cl) as [l|]; cbn [par In] in Hp; [|contradiction].
@@ -467,12 +469,13 @@ Proof. intros. unfold run. apply fold_left_app. Qed.
 
 Lemma clones_length_shape : forall s x s', shape s x s' -> length (clones s') = length (clones s).
 Proof.
-  intros s x s' Sh. shape_cases Sh; auto; cbn [set_clone add_node set_remote clones]; apply set_nth_length.
+  intros s x s' Sh. shape_cases Sh; auto; cbn [set_clone add_node set_remote set_flag clones]; apply set_nth_length.
 Qed.
 
 Lemma clones_length_exec : forall s x, length (clones (exec s x)) = length (clones s).
 Proof.
-  intros s x. destruct x as [c k v|c|c|c|c]; cbn [exec].
+  intros s x. destruct x as [c k v|r c|r c|r c|r c]; cbn [exec];
+    try (destruct (skip s r c); [reflexivity|]).
   - destruct (nth_error (clones s) c); auto. cbn [set_clone add_node clones]. apply set_nth_length.
   - destruct (nth_error (clones s) c); auto. destruct (remote s); auto. apply set_nth_length.
   - destruct (nth_error (clones s) c); auto. apply set_nth_length.
@@ -497,7 +500,7 @@ Definition pend_inv (s : state) : Prop :=
 Lemma pend_inv_shape : forall s x s', shape s x s' -> guard s x = true -> pend_inv s -> pend_inv s'.
 Proof.
   intros s x s' Sh G Inv.
-  shape_cases Sh; auto; unfold pend_inv; cbn [set_clone add_node set_remote clones]; intros c0 cl0 H0 P0;
+  shape_cases Sh; auto; unfold pend_inv; cbn [set_clone add_node set_remote set_flag clones]; intros c0 cl0 H0 P0;
     try (apply nth_set_cases in H0 as [[_ ->]|[_ H0]]; [cbn [pending local] in *|eauto]);
     try discriminate; eauto.
   - cbn [guard] in G. unfold pending_of in G. rewrite Hc, P0 in G. discriminate.
@@ -565,7 +568,7 @@ Proof.
   assert (Old : forall i nd k v, nth_error (store_of s) i = Some nd -> lookup k (notes nd) = Some v ->
                 written (length (clones s)) (h ++ [x]) k v).
   { intros. apply written_app_l. eapply Inv; eauto. }
-  shape_cases Sh; cbn [set_clone add_node set_remote store_of]; auto.
+  shape_cases Sh; cbn [set_clone add_node set_remote set_flag store_of]; auto.
   - intros i nd k' v' Hi Hk. apply nth_error_snoc_cases in Hi as [[_ Hi]|[_ ->]]; [eapply Old; eauto|].
     cbn [notes] in Hk. rewrite lookup_upsert in Hk. destruct (N.eqb k k') eqn:E.
     + apply N.eqb_eq in E. inversion Hk. subst. exists c. split.
@@ -599,16 +602,16 @@ Qed.
 Lemma remote_mono_shape : forall s x s', wf s -> shape s x s' -> sub_keys (remote_map s) (remote_map s').
 Proof.
   intros s x s' (Hst & Hcl & Hrm & Hfo) Sh. unfold remote_map.
-  shape_cases Sh; cbn [set_clone add_node set_remote store_of remote]; try apply sub_keys_refl.
+  shape_cases Sh; cbn [set_clone add_node set_remote set_flag store_of remote]; try apply sub_keys_refl.
   - rewrite map_of_snoc; auto. apply sub_keys_refl.
   - rewrite map_of_snoc; auto. apply sub_keys_refl.
   - destruct Hp as [->|[r [-> A]]]; [apply sub_keys_nil|].
     cbn [map_of]. apply reach_keys; auto. eapply anc_sound; eauto.
 Qed.
 
-Lemma local_of_set : forall s st' c cl c' r f,
+Lemma local_of_set : forall s st' c cl c' r f f2,
   c < length (clones s) ->
-  local_of (mkState st' (set_nth (clones s) c cl) r f) c' = if Nat.eqb c c' then local cl else local_of s c'.
+  local_of (mkState st' (set_nth (clones s) c cl) r f f2) c' = if Nat.eqb c c' then local cl else local_of s c'.
 Proof.
   intros. unfold local_of. cbn [clones]. destruct (Nat.eqb c c') eqn:E.
   - apply Nat.eqb_eq in E. subst. now rewrite nth_set_same.
@@ -623,7 +626,7 @@ Proof.
   unfold local_map.
   shape_cases Sh; try apply sub_keys_refl;
     assert (Lc : c < length (clones s)) by (apply nth_error_Some; congruence);
-    unfold set_clone, add_node, set_remote; cbn [store_of clones remote fuel_out];
+    unfold set_clone, add_node, set_remote, set_flag; cbn [store_of clones remote fuel_out rej];
     try rewrite local_of_set by auto;
     (destruct (Nat.eqb c c') eqn:E;
      [apply Nat.eqb_eq in E; subst c'; unfold local_of at 1; rewrite Hc; cbn [local map_of]
@@ -798,7 +801,7 @@ Proof.
     apply has_key_lookup in HK as [v' Hv']. rewrite Hv'. f_equal. auto.
   - subst x. cbn [exec]. destruct (nth_error (clones (S0 n q)) c) as [cl|] eqn:E.
     2: { apply nth_error_None in E. rewrite len_S0 in E. lia. }
-    unfold local_map, set_clone, add_node. cbn [store_of clones remote fuel_out].
+    unfold local_map, set_clone, add_node. cbn [store_of clones remote fuel_out rej].
     rewrite local_of_set by (rewrite len_S0; auto). rewrite Nat.eqb_refl. cbn [local map_of].
     rewrite map_at_snoc_eq. cbn [notes]. rewrite lookup_upsert. now rewrite N.eqb_refl.
 Qed.
@@ -806,44 +809,51 @@ Qed.
 (* ================================================================== blocks *)
 (* the order of the sub-steps, from Gen/GenSync.v: these equations stop holding when the source
    reorders the existence test and the fetch *)
-Lemma PushNotes_eq : forall c, PushNotes c = [FetchTracking c; TestLocal c; MergeLocal c; PushRef c].
+Lemma attempt_eq : forall r c, attempt r c = [FetchTracking r c; TestLocal r c; MergeLocal r c; PushRef r c].
 Proof. reflexivity. Qed.
-Lemma FetchNotes_eq : forall c, FetchNotes c = [FetchTracking c; TestLocal c; MergeLocal c].
+(* NOTES_PUSH_ATTEMPTS = 3 *)
+Lemma PushNotes_eq : forall c, PushNotes c = attempt false c ++ attempt true c ++ attempt true c.
+Proof. reflexivity. Qed.
+Lemma FetchNotes_eq : forall c, FetchNotes c = [FetchTracking false c; TestLocal false c; MergeLocal false c].
 Proof. reflexivity. Qed.
 Lemma PushNotes_commit_on_wire_eq : forall c k v,
-  PushNotes_commit_on_wire c k v = [Commit c k v; FetchTracking c; TestLocal c; MergeLocal c; PushRef c].
+  PushNotes_commit_on_wire c k v =
+  [Commit c k v; FetchTracking false c; TestLocal false c; MergeLocal false c; PushRef false c]
+  ++ attempt true c ++ attempt true c.
 Proof. reflexivity. Qed.
 Lemma PushNotes_commit_after_fetch_eq : forall c k v,
-  PushNotes_commit_after_fetch c k v = [FetchTracking c; Commit c k v; TestLocal c; MergeLocal c; PushRef c].
+  PushNotes_commit_after_fetch c k v =
+  [FetchTracking false c; Commit c k v; TestLocal false c; MergeLocal false c; PushRef false c]
+  ++ attempt true c ++ attempt true c.
 Proof. reflexivity. Qed.
 Lemma FetchNotes_commit_on_wire_eq : forall c k v,
-  FetchNotes_commit_on_wire c k v = [Commit c k v; FetchTracking c; TestLocal c; MergeLocal c].
+  FetchNotes_commit_on_wire c k v = [Commit c k v; FetchTracking false c; TestLocal false c; MergeLocal false c].
 Proof. reflexivity. Qed.
 Lemma FetchNotes_commit_after_fetch_eq : forall c k v,
-  FetchNotes_commit_after_fetch c k v = [FetchTracking c; Commit c k v; TestLocal c; MergeLocal c].
+  FetchNotes_commit_after_fetch c k v = [FetchTracking false c; Commit c k v; TestLocal false c; MergeLocal false c].
 Proof. reflexivity. Qed.
 
-Lemma remote_MergeLocal : forall s c, remote (exec s (MergeLocal c)) = remote s.
+Lemma remote_MergeLocal : forall s c, remote (exec s (MergeLocal false c)) = remote s.
 Proof.
-  intros. cbn [exec]. destruct (nth_error (clones s) c) as [cl|]; auto.
+  intros. cbn [exec skip andb]. destruct (nth_error (clones s) c) as [cl|]; auto.
   destruct (pending cl) as [saw|]; auto. destruct (tracking cl); auto.
   destruct (if saw then local cl else None); auto. destruct (merge_local _ _ _); auto.
 Qed.
 
-Lemma remote_TestLocal : forall s c, remote (exec s (TestLocal c)) = remote s.
-Proof. intros. cbn [exec]. destruct (nth_error (clones s) c); auto. Qed.
+Lemma remote_TestLocal : forall s c, remote (exec s (TestLocal false c)) = remote s.
+Proof. intros. cbn [exec skip andb]. destruct (nth_error (clones s) c); auto. Qed.
 
-Lemma nth_clone_set : forall s st' c cl r f, c < length (clones s) ->
-  nth_error (clones (mkState st' (set_nth (clones s) c cl) r f)) c = Some cl.
+Lemma nth_clone_set : forall s st' c cl r f f2, c < length (clones s) ->
+  nth_error (clones (mkState st' (set_nth (clones s) c cl) r f f2)) c = Some cl.
 Proof. intros. cbn [clones]. now apply nth_set_same. Qed.
 
-(* the state after FetchTracking c; TestLocal c *)
+(* the state after FetchTracking false c; TestLocal false c *)
 Lemma fetch_test : forall s c cl, c < length (clones s) -> nth_error (clones s) c = Some cl ->
-  exec (exec s (FetchTracking c)) (TestLocal c) =
+  exec (exec s (FetchTracking false c)) (TestLocal false c) =
   set_clone s c (mkClone (local cl) (match remote s with Some r => Some r | None => tracking cl end)
                          (Some (is_some (local cl)))).
 Proof.
-  intros s c cl Lc Hc. cbn [exec]. rewrite Hc. destruct (remote s) as [r|] eqn:Hr.
+  intros s c cl Lc Hc. cbn [exec skip andb]. rewrite Hc. destruct (remote s) as [r|] eqn:Hr.
   - unfold set_clone at 1. rewrite nth_clone_set by auto. unfold set_clone.
     cbn [store_of clones remote fuel_out local tracking]. f_equal.
     clear. revert c. induction (clones s) as [|y l IH]; intros [|c]; cbn [set_nth]; auto. now rewrite IH.
@@ -853,7 +863,7 @@ Qed.
 (* after MergeLocal the local ref contains everything the tracking ref has *)
 Lemma merge_contains_tracking : forall s c cl t b,
   wf s -> nth_error (clones s) c = Some cl -> tracking cl = Some t -> pending cl = Some b ->
-  sub_keys (map_at (store_of s) t) (local_map (exec s (MergeLocal c)) c).
+  sub_keys (map_at (store_of s) t) (local_map (exec s (MergeLocal false c)) c).
 Proof.
   intros s c cl t b Hwf Hc Ht Hp. pose proof Hwf as (Hst & Hcl & Hrm & Hfo).
   assert (Lc : c < length (clones s)) by (apply nth_error_Some; congruence).
@@ -862,13 +872,13 @@ Proof.
                    (local_map (set_clone s c (mkClone (Some t) (Some t) None)) c)).
   { unfold local_map, set_clone. cbn [store_of]. rewrite local_of_set by auto.
     rewrite Nat.eqb_refl. cbn [local map_of]. apply sub_keys_refl. }
-  cbn [exec]. rewrite Hc, Hp, Ht. destruct b; [|exact Copy].
+  cbn [exec skip andb]. rewrite Hc, Hp, Ht. destruct b; [|exact Copy].
   destruct (local cl) as [l|] eqn:Hl; [|exact Copy].
   cbn [valid_ref] in Vl. pose proof (merge_local_spec _ l t Hst Vl Vt) as M.
   destruct (merge_local (store_of s) l t) as [| |nd|]; try contradiction; try exact Copy.
   - unfold local_map, set_clone. cbn [store_of]. rewrite local_of_set by auto.
     rewrite Nat.eqb_refl. cbn [local map_of]. apply reach_keys; auto. eapply anc_sound; eauto.
-  - destruct M as [bm [-> [B1 B2]]]. unfold local_map, set_clone, add_node. cbn [store_of clones remote fuel_out].
+  - destruct M as [bm [-> [B1 B2]]]. unfold local_map, set_clone, add_node. cbn [store_of clones remote fuel_out rej].
     rewrite local_of_set by auto. rewrite Nat.eqb_refl. cbn [local map_of].
     rewrite map_at_snoc_eq. cbn [notes]. now destruct (merge_keys _ _ _ B1 B2).
 Qed.
@@ -880,7 +890,7 @@ Proof.
   intros s c Hwf Lc. rewrite FetchNotes_eq. unfold run. cbn [fold_left].
   destruct (nth_error (clones s) c) as [cl|] eqn:Hc.
   2: { apply nth_error_None in Hc. lia. }
-  assert (W2 : wf (exec (exec s (FetchTracking c)) (TestLocal c))) by (apply wf_exec, wf_exec, Hwf).
+  assert (W2 : wf (exec (exec s (FetchTracking false c)) (TestLocal false c))) by (apply wf_exec, wf_exec, Hwf).
   rewrite (fetch_test s c cl Lc Hc) in *.
   unfold remote_map. destruct (remote s) as [r|] eqn:Hr; [|apply sub_keys_nil].
   cbn [map_of].
@@ -889,32 +899,75 @@ Proof.
   unfold set_clone. now apply nth_clone_set.
 Qed.
 
+Lemma flag_set_false : forall s c, flag_of (set_flag s c false) c = false.
+Proof.
+  intros. unfold flag_of, set_flag. cbn [rej]. induction (rej s) as [|x l IH]; cbn [filter existsb]; auto.
+  destruct (Nat.eqb c x) eqn:E; cbn [negb existsb]; auto. now rewrite E.
+Qed.
+
+Lemma flag_set_true : forall s c, flag_of (set_flag s c true) c = true.
+Proof. intros. unfold flag_of, set_flag. cbn [rej existsb]. now rewrite Nat.eqb_refl. Qed.
+
+Lemma flag_set_other : forall s c c' b, c <> c' -> flag_of (set_flag s c b) c' = flag_of s c'.
+Proof.
+  intros s c c' b Ne. unfold flag_of, set_flag. cbn [rej]. destruct b; cbn [existsb].
+  - assert (Nat.eqb c' c = false) by (apply Nat.eqb_neq; auto). now rewrite H.
+  - induction (rej s) as [|x l IH]; cbn [filter existsb]; auto.
+    destruct (Nat.eqb c x) eqn:E; cbn [negb existsb].
+    + apply Nat.eqb_eq in E. subst x. assert (Nat.eqb c' c = false) by (apply Nat.eqb_neq; auto).
+      now rewrite H.
+    + now rewrite IH.
+Qed.
+
+(* the steps of a retry do nothing unless the clone's latest push stands rejected *)
+Lemma retry_skipped : forall s c x, flag_of s c = false ->
+  In x (attempt true c) -> exec s x = s.
+Proof.
+  intros s c x F H. rewrite attempt_eq in H. cbn [In] in H.
+  destruct H as [<-|[<-|[<-|[<-|[]]]]]; cbn [exec]; unfold skip; rewrite F; reflexivity.
+Qed.
+
+Lemma attempt_skipped : forall s c, flag_of s c = false -> run s (attempt true c) = s.
+Proof.
+  intros s c F. rewrite attempt_eq. unfold run. cbn [fold_left].
+  rewrite !(retry_skipped s c) ; auto; rewrite attempt_eq; cbn [In]; auto 6.
+Qed.
+
+Lemma exec_active : forall s r c, skip s r c = false ->
+  exec s (FetchTracking r c) = exec s (FetchTracking false c) /\
+  exec s (TestLocal r c) = exec s (TestLocal false c) /\
+  exec s (MergeLocal r c) = exec s (MergeLocal false c) /\
+  exec s (PushRef r c) = exec s (PushRef false c).
+Proof. intros s r c H. cbn [exec]. rewrite H. cbn [skip andb]. auto. Qed.
+
 Lemma exec_push_ok : forall s c cl l,
   nth_error (clones s) c = Some cl -> local cl = Some l ->
   (remote s = None \/ exists r, remote s = Some r /\ anc (length (store_of s)) (store_of s) r l = Yes) ->
-  exec s (PushRef c) = set_remote s (Some l).
+  exec s (PushRef false c) = set_flag (set_remote s (Some l)) c false.
 Proof.
-  intros s c cl l Hc Hl H. cbn [exec]. unfold push_outcome. rewrite Hc, Hl.
+  intros s c cl l Hc Hl H. cbn [exec skip andb]. unfold push_outcome. rewrite Hc, Hl.
   destruct H as [->|[r [-> ->]]]; reflexivity.
 Qed.
 
 Lemma push_after : forall s c cl l,
   nth_error (clones s) c = Some cl -> local cl = Some l ->
   (remote s = None \/ exists r, remote s = Some r /\ anc (length (store_of s)) (store_of s) r l = Yes) ->
-  remote (exec s (PushRef c)) = local_of (exec s (PushRef c)) c.
+  remote (exec s (PushRef false c)) = local_of (exec s (PushRef false c)) c /\
+  flag_of (exec s (PushRef false c)) c = false.
 Proof.
-  intros s c cl l Hc Hl H. rewrite (exec_push_ok s c cl l Hc Hl H).
-  unfold local_of. cbn [set_remote remote clones]. now rewrite Hc, Hl.
+  intros s c cl l Hc Hl H. rewrite (exec_push_ok s c cl l Hc Hl H). split; [|apply flag_set_false].
+  unfold local_of. cbn [set_flag set_remote remote clones]. now rewrite Hc, Hl.
 Qed.
 
-(* PushNotes without interleaving always succeeds: the remote tip becomes the clone's tip *)
-Lemma push_block : forall s c, wf s -> c < length (clones s) ->
-  remote (run s (PushNotes c)) = local_of (run s (PushNotes c)) c.
+(* one round without interleaving always succeeds: the remote tip becomes the clone's tip *)
+Lemma attempt_block : forall s c, wf s -> c < length (clones s) ->
+  remote (run s (attempt false c)) = local_of (run s (attempt false c)) c /\
+  flag_of (run s (attempt false c)) c = false.
 Proof.
-  intros s c Hwf Lc. rewrite PushNotes_eq. unfold run. cbn [fold_left].
+  intros s c Hwf Lc. rewrite attempt_eq. unfold run. cbn [fold_left].
   destruct (nth_error (clones s) c) as [cl|] eqn:Hc.
   2: { apply nth_error_None in Hc. lia. }
-  assert (W2 : wf (exec (exec s (FetchTracking c)) (TestLocal c))) by (apply wf_exec, wf_exec, Hwf).
+  assert (W2 : wf (exec (exec s (FetchTracking false c)) (TestLocal false c))) by (apply wf_exec, wf_exec, Hwf).
   rewrite (fetch_test s c cl Lc Hc) in *.
   set (CL := mkClone (local cl) (match remote s with Some r => Some r | None => tracking cl end)
                      (Some (is_some (local cl)))) in *.
@@ -925,13 +978,14 @@ Proof.
   destruct (remote s) as [r|] eqn:Hr.
   - assert (R2 : remote s2 = Some r) by exact Hr.
     destruct (Hcl c CL N2) as [Vl Vt]. cbn [CL local tracking valid_ref] in Vl, Vt.
-    assert (Copy : remote (exec (set_clone s2 c (mkClone (Some r) (Some r) None)) (PushRef c)) =
-                   local_of (exec (set_clone s2 c (mkClone (Some r) (Some r) None)) (PushRef c)) c).
+    assert (Copy : remote (exec (set_clone s2 c (mkClone (Some r) (Some r) None)) (PushRef false c)) =
+                   local_of (exec (set_clone s2 c (mkClone (Some r) (Some r) None)) (PushRef false c)) c /\
+                   flag_of (exec (set_clone s2 c (mkClone (Some r) (Some r) None)) (PushRef false c)) c = false).
     { eapply push_after with (cl := mkClone (Some r) (Some r) None) (l := r).
       - unfold set_clone. now apply nth_clone_set.
       - reflexivity.
       - right. exists r. split; [exact R2|apply anc_refl]. }
-    cbn [exec]. rewrite N2. cbn [CL pending tracking local].
+    cbn [exec skip andb]. rewrite N2. cbn [CL pending tracking local].
     destruct (local cl) as [l|] eqn:Hl; cbn [is_some]; [|exact Copy].
     cbn [valid_ref] in Vl. pose proof (merge_local_spec _ l r Hst Vl Vt) as M.
     destruct (merge_local (store_of s2) l r) as [| |nd|]; try contradiction.
@@ -951,7 +1005,7 @@ Proof.
         rewrite Ne, nth_error_snoc_eq. cbn [parents fold_right]. rewrite anc_refl.
         destruct (anc _ _ r l); reflexivity.
   - (* no notes ref on the remote: the push creates it *)
-    set (s3 := exec s2 (MergeLocal c)).
+    set (s3 := exec s2 (MergeLocal false c)).
     assert (L3 : c < length (clones s3)) by (unfold s3; rewrite clones_length_exec; auto).
     assert (R3 : remote s3 = None) by (unfold s3; rewrite remote_MergeLocal; exact Hr).
     clearbody s3.
@@ -959,8 +1013,23 @@ Proof.
     2: { apply nth_error_None in Hc3. lia. }
     destruct (local cl3) as [l|] eqn:Hl3.
     + eapply push_after; eauto.
-    + cbn [exec]. unfold push_outcome. rewrite Hc3, Hl3. unfold local_of. now rewrite Hc3, Hl3.
+    + cbn [exec skip andb]. unfold push_outcome. rewrite Hc3, Hl3. split; [|apply flag_set_false].
+      unfold local_of. cbn [set_flag clones remote]. now rewrite Hc3, Hl3.
 Qed.
+
+(* PushNotes (all rounds) without interleaving: the first round succeeds, the retries do nothing *)
+Lemma push_block_attempt : forall s c, wf s -> c < length (clones s) ->
+  run s (PushNotes c) = run s (attempt false c).
+Proof.
+  intros s c Hwf Lc. rewrite PushNotes_eq, !run_app.
+  destruct (attempt_block s c Hwf Lc) as [_ F]. rewrite (attempt_skipped _ c F). now rewrite (attempt_skipped _ c F).
+Qed.
+
+Lemma push_block : forall s c, wf s -> c < length (clones s) ->
+  remote (run s (PushNotes c)) = local_of (run s (PushNotes c)) c.
+Proof. intros s c Hwf Lc. rewrite push_block_attempt by auto. now apply attempt_block. Qed.
+
+
 
 Lemma push_block_keys : forall s c, good s -> c < length (clones s) ->
   sub_keys (local_map s c) (remote_map (run s (PushNotes c))).
@@ -1102,7 +1171,7 @@ Proof.
   intros s c cl t Hc Hl Hr.
   assert (Lc : c < length (clones s)) by (apply nth_error_Some; congruence).
   rewrite FetchNotes_eq. unfold run. cbn [fold_left].
-  rewrite (fetch_test s c cl Lc Hc), Hr, Hl. cbn [is_some exec].
+  rewrite (fetch_test s c cl Lc Hc), Hr, Hl. cbn [is_some exec skip andb].
   unfold set_clone at 1. rewrite nth_clone_set by auto. cbn [pending tracking local].
   unfold set_clone. cbn [clones store_of remote fuel_out]. unfold local_of. cbn [clones].
   now rewrite nth_set_same by (rewrite set_nth_length; auto).
@@ -1110,7 +1179,7 @@ Qed.
 
 Lemma first_sync_remote : forall s c cl l,
   nth_error (clones s) c = Some cl -> local cl = Some l -> remote s = None ->
-  remote (exec s (PushRef c)) = Some l.
+  remote (exec s (PushRef false c)) = Some l.
 Proof. intros s c cl l Hc Hl Hr. rewrite (exec_push_ok s c cl l); auto. Qed.
 
 (* ------------------------------------------------------------------ why ls-remote is no separate step *)
@@ -1120,7 +1189,7 @@ Definition trk_inv (s : state) : Prop :=
 Lemma trk_inv_shape : forall s x s', shape s x s' -> trk_inv s -> trk_inv s'.
 Proof.
   intros s x s' Sh Inv. shape_cases Sh; auto; unfold trk_inv;
-    cbn [set_clone add_node set_remote remote clones]; intros Hn c0 cl0 H0;
+    cbn [set_clone add_node set_remote set_flag remote clones]; intros Hn c0 cl0 H0;
     try discriminate; try congruence;
     (apply nth_set_cases in H0 as [[_ ->]|[_ H0]]; cbn [tracking]; eauto);
     try (rewrite (Inv Hn c cl Hc) in Ht; discriminate).
@@ -1133,20 +1202,31 @@ Proof.
   - rewrite S0_app. cbn [run fold_left]. eapply trk_inv_shape; eauto. apply exec_shape, wf_S0.
 Qed.
 (* ------------------------------------------------------------------ witnesses (computed) *)
-Lemma race_needs_repush :
+Lemma race_repaired :
   Known_C10 race2 = true /\
-  single_writer_per_key race2 /\
+  single_writer_per_key race2_users /\
   fst (run_trace (init 2) race2)
     = [None; None; None; None; None; None; None; None; Some PCreated; Some PRejected] /\
-  lookup 11%N (local_map (run (init 2) race2) 1) = Some 101%N /\
   lookup 11%N (remote_map (run (init 2) race2)) = None /\
-  lookup 11%N (local_map (run (init 2) (race2 ++ FetchNotes 0 ++ FetchNotes 1)) 0) = None /\
-  lookup 11%N (remote_map (run (init 2) (race2 ++ PushNotes 1))) = Some 101%N.
+  lookup 11%N (remote_map (run (init 2) race2_users)) = Some 101%N /\
+  flag_of (run (init 2) race2_users) 1 = false /\
+  (let s := run (init 2) (race2_users ++ FetchNotes 0 ++ FetchNotes 1) in
+   canon (remote_map s) = canon (local_map s 0) /\ canon (local_map s 0) = canon (local_map s 1) /\
+   lookup 10%N (local_map s 1) = Some 100%N /\ lookup 11%N (local_map s 0) = Some 101%N).
 Proof.
   split; [vm_compute; reflexivity|]. split.
   - unfold single_writer_per_key. cbn. repeat constructor; cbn; intuition discriminate.
   - vm_compute. repeat split; reflexivity.
 Qed.
+
+(* the bound of retry_succeeds is tight: three overlapping pushes exhaust three rounds *)
+Lemma retry_exhausted :
+  overlaps [(busy 10%N, [], []); (busy 12%N, [], []); (busy 13%N, [], [])] = 3 /\
+  no_commit_in_copy_window 2 exhausted = true /\
+  flag_of (run (init 2) exhausted) 1 = true /\
+  lookup 11%N (remote_map (run (init 2) exhausted)) = None /\
+  lookup 11%N (remote_map (run (init 2) (exhausted ++ PushNotes 1))) = Some 101%N.
+Proof. vm_compute. repeat split; reflexivity. Qed.
 
 Lemma race3_example :
   single_writer_per_key race3 /\
@@ -1213,14 +1293,32 @@ Qed.
 Lemma reach_trans : forall st a b c, reach st a b -> reach st b c -> reach st a c.
 Proof. intros st a b c H1 H2. induction H2; auto. eapply reach_step; eauto. Qed.
 
+Lemma exec_skipped : forall s r c, skip s r c = true ->
+  exec s (FetchTracking r c) = s /\ exec s (TestLocal r c) = s /\
+  exec s (MergeLocal r c) = s /\ exec s (PushRef r c) = s.
+Proof. intros s r c H. cbn [exec]. rewrite H. auto. Qed.
+
+Lemma remote_FetchTracking : forall s c, remote (exec s (FetchTracking false c)) = remote s.
+Proof.
+  intros. cbn [exec skip andb]. destruct (nth_error (clones s) c); auto.
+  destruct (remote s) eqn:R; cbn [set_clone remote]; auto.
+Qed.
+
 Lemma remote_no_push : forall s x, is_push x = false -> remote (exec s x) = remote s.
 Proof.
-  intros s x H. destruct x as [c k v|c|c|c|c]; try discriminate.
+  intros s x H. destruct x as [c k v|r c|r c|r c|r c]; try discriminate.
   - cbn [exec]. destruct (nth_error (clones s) c); auto.
-  - cbn [exec]. destruct (nth_error (clones s) c); auto. destruct (remote s) eqn:R; cbn [set_clone remote]; auto.
-  - apply remote_TestLocal.
-  - apply remote_MergeLocal.
+  - destruct (skip s r c) eqn:K.
+    + now rewrite (proj1 (exec_skipped s r c K)).
+    + rewrite (proj1 (exec_active s r c K)). apply remote_FetchTracking.
+  - destruct (skip s r c) eqn:K.
+    + now rewrite (proj1 (proj2 (exec_skipped s r c K))).
+    + rewrite (proj1 (proj2 (exec_active s r c K))). apply remote_TestLocal.
+  - destruct (skip s r c) eqn:K.
+    + now rewrite (proj1 (proj2 (proj2 (exec_skipped s r c K)))).
+    + rewrite (proj1 (proj2 (proj2 (exec_active s r c K)))). apply remote_MergeLocal.
 Qed.
+
 
 (* outside the copy window a clone's notes tip only ever moves to a descendant *)
 Lemma local_reach_shape : forall s x s' c0 lo, good s -> shape s x s' -> local_of s c0 = Some lo ->
@@ -1229,7 +1327,7 @@ Proof.
   intros s x s' c0 lo [Hwf Pinv] Sh Hl0. pose proof Hwf as (Hst & Hcl & Hrm & Hfo).
   shape_cases Sh; try (exists lo; split; [exact Hl0|constructor]);
     assert (Lc : c < length (clones s)) by (apply nth_error_Some; congruence);
-    unfold set_clone, add_node; cbn [store_of clones remote fuel_out]; rewrite local_of_set by auto;
+    unfold set_clone, add_node; cbn [store_of clones remote fuel_out rej]; rewrite local_of_set by auto;
     (destruct (Nat.eqb c c0) eqn:E;
      [apply Nat.eqb_eq in E; subst c0; unfold local_of in Hl0; rewrite Hc in Hl0; cbn [local]
      |exists lo; split; [exact Hl0|try apply reach_snoc; constructor]]).
@@ -1246,9 +1344,9 @@ Proof.
     eapply reach_step; [apply nth_error_snoc_eq|cbn [parents]; now left|constructor].
 Qed.
 
-Lemma tracking_of_set : forall s st' c cl c' r f,
+Lemma tracking_of_set : forall s st' c cl c' r f f2,
   c < length (clones s) ->
-  tracking_of (mkState st' (set_nth (clones s) c cl) r f) c' = if Nat.eqb c c' then tracking cl else tracking_of s c'.
+  tracking_of (mkState st' (set_nth (clones s) c cl) r f f2) c' = if Nat.eqb c c' then tracking cl else tracking_of s c'.
 Proof.
   intros. unfold tracking_of. cbn [clones]. destruct (Nat.eqb c c') eqn:E.
   - apply Nat.eqb_eq in E. subst. now rewrite nth_set_same.
@@ -1256,13 +1354,13 @@ Proof.
 Qed.
 
 (* while nobody pushes, a tracking ref that equals the remote tip stays equal to it *)
-Lemma tracking_kept_shape : forall s x s' c0 r0, shape s x s' -> is_push x = false ->
-  remote s = Some r0 -> tracking_of s c0 = Some r0 -> tracking_of s' c0 = Some r0.
+Lemma tracking_kept_shape : forall s x s' c0 rr, shape s x s' -> is_push x = false ->
+  remote s = Some rr -> tracking_of s c0 = Some rr -> tracking_of s' c0 = Some rr.
 Proof.
-  intros s x s' c0 r0 Sh Np Hr0 Ht0.
+  intros s x s' c0 rr Sh Np Hrr Ht0.
   shape_cases Sh; auto; try discriminate;
     assert (Lc : c < length (clones s)) by (apply nth_error_Some; congruence);
-    unfold set_clone, add_node; cbn [store_of clones remote fuel_out]; rewrite tracking_of_set by auto;
+    unfold set_clone, add_node; cbn [store_of clones remote fuel_out rej]; rewrite tracking_of_set by auto;
     (destruct (Nat.eqb c c0) eqn:E; [apply Nat.eqb_eq in E; subst c0; cbn [tracking]|exact Ht0]);
     unfold tracking_of in Ht0; rewrite Hc in Ht0; congruence.
 Qed.
@@ -1270,7 +1368,7 @@ Qed.
 (* MergeLocal puts the clone's tip on top of its tracking ref *)
 Lemma merge_reaches_tracking : forall s c cl t b,
   wf s -> nth_error (clones s) c = Some cl -> tracking cl = Some t -> pending cl = Some b ->
-  exists l', local_of (exec s (MergeLocal c)) c = Some l' /\ reach (store_of (exec s (MergeLocal c))) t l'.
+  exists l', local_of (exec s (MergeLocal false c)) c = Some l' /\ reach (store_of (exec s (MergeLocal false c))) t l'.
 Proof.
   intros s c cl t b Hwf Hc Ht Hp. pose proof Hwf as (Hst & Hcl & Hrm & Hfo).
   assert (Lc : c < length (clones s)) by (apply nth_error_Some; congruence).
@@ -1279,14 +1377,14 @@ Proof.
                             reach (store_of (set_clone s c (mkClone (Some t) (Some t) None))) t l').
   { exists t. unfold set_clone. cbn [store_of]. rewrite local_of_set, Nat.eqb_refl by auto.
     split; auto. constructor. }
-  cbn [exec]. rewrite Hc, Hp, Ht. destruct b; [|exact Copy].
+  cbn [exec skip andb]. rewrite Hc, Hp, Ht. destruct b; [|exact Copy].
   destruct (local cl) as [l|] eqn:Hl; [|exact Copy].
   cbn [valid_ref] in Vl. pose proof (merge_local_spec _ l t Hst Vl Vt) as M.
   destruct (merge_local (store_of s) l t) as [| |nd|]; try contradiction; try exact Copy.
   - exists l. unfold set_clone. cbn [store_of]. rewrite local_of_set, Nat.eqb_refl by auto.
     split; auto. eapply anc_sound; eauto.
   - destruct M as [bm [-> _]]. exists (length (store_of s)).
-    unfold set_clone, add_node. cbn [store_of clones remote fuel_out].
+    unfold set_clone, add_node. cbn [store_of clones remote fuel_out rej].
     rewrite local_of_set, Nat.eqb_refl by auto. split; auto.
     eapply reach_step; [apply nth_error_snoc_eq|cbn [parents]; right; now left|constructor].
 Qed.
@@ -1294,9 +1392,9 @@ Qed.
 Definition on_top (s : state) (c : nat) (r : nid) : Prop :=
   remote s = Some r /\ exists l, local_of s c = Some l /\ reach (store_of s) r l.
 
-Lemma reach_shape : forall s x s' a b, shape s x s' -> reach (store_of s) a b -> reach (store_of s') a b.
+Lemma reach_shape : forall s x s' a0 b0, shape s x s' -> reach (store_of s) a0 b0 -> reach (store_of s') a0 b0.
 Proof.
-  intros s x s' a b Sh Hab. shape_cases Sh; auto; cbn [set_clone add_node set_remote store_of]; auto;
+  intros s x s' a0 b0 Sh Hab. shape_cases Sh; auto; cbn [set_clone add_node set_remote set_flag store_of]; auto;
     now apply reach_snoc.
 Qed.
 
@@ -1332,69 +1430,380 @@ Proof.
   cbn [run fold_left]. apply IH; auto. now rewrite remote_no_push.
 Qed.
 
-(* a push whose pre-push fetch, test and merge happened with no notes push (by anybody) in between is
-   never rejected, whatever else is interleaved (outside the copy window): rejections happen only
-   when pushes overlap *)
-Lemma no_reject_without_overlap : forall n pre mid1 mid2 c, c < n ->
-  no_push mid1 = true -> no_push mid2 = true ->
-  guarded (init n) (pre ++ [FetchTracking c] ++ mid1 ++ [TestLocal c; MergeLocal c] ++ mid2) = true ->
-  let s := run (init n) (pre ++ [FetchTracking c] ++ mid1 ++ [TestLocal c; MergeLocal c] ++ mid2) in
-  push_outcome s c = PCreated \/ push_outcome s c = PUpdated \/ push_outcome s c = PNoLocal.
+(* the rejection flags change only at a notes push *)
+Lemma rej_no_push : forall s x, is_push x = false -> rej (exec s x) = rej s.
 Proof.
-  intros n pre mid1 mid2 c Hc N1 N2 G s.
-  fold (S0 n (pre ++ [FetchTracking c] ++ mid1 ++ [TestLocal c; MergeLocal c] ++ mid2)) in s.
-  assert (Es : s = run (exec (exec (run (exec (S0 n pre) (FetchTracking c)) mid1) (TestLocal c)) (MergeLocal c)) mid2).
-  { unfold s. rewrite S0_app, !run_app. reflexivity. }
-  rewrite !app_assoc in G.
-  apply guarded_S0_app in G as [G G2]. rewrite <- !app_assoc in G2. 
-  set (s0 := S0 n pre) in *. assert (W0 : wf s0) by apply wf_S0.
-  assert (L0 : c < length (clones s0)) by (unfold s0; now rewrite len_S0).
-  set (s1 := exec s0 (FetchTracking c)) in *. assert (W1 : wf s1) by (apply wf_exec; auto).
-  set (s2 := run s1 mid1) in *. assert (W2 : wf s2) by (apply wf_run; auto).
-  set (s2' := exec s2 (TestLocal c)) in *. assert (W2' : wf s2') by (apply wf_exec; auto).
-  set (s3 := exec s2' (MergeLocal c)) in *. assert (W3 : wf s3) by (apply wf_exec; auto).
-  assert (G3 : good s3).
-  { replace s3 with (S0 n ((((pre ++ [FetchTracking c]) ++ mid1) ++ [TestLocal c]) ++ [MergeLocal c])).
-    - apply good_S0. rewrite <- !app_assoc in *. exact G.
-    - rewrite !S0_app. reflexivity. }
-  assert (G2' : guarded s3 mid2 = true).
-  { replace s3 with (S0 n ((((pre ++ [FetchTracking c]) ++ mid1) ++ [TestLocal c]) ++ [MergeLocal c])).
-    - rewrite <- !app_assoc in *. exact G2.
-    - rewrite !S0_app. reflexivity. }
+  intros s x H. destruct x as [c k v|r c|r c|r c|r c]; try discriminate; cbn [exec];
+    try (destruct (skip s r c); [reflexivity|]).
+  - destruct (nth_error (clones s) c); auto.
+  - destruct (nth_error (clones s) c); auto. destruct (remote s); auto.
+  - destruct (nth_error (clones s) c); auto.
+  - destruct (nth_error (clones s) c) as [cl|]; auto. destruct (pending cl) as [saw|]; auto.
+    destruct (tracking cl); auto. destruct (if saw then local cl else None); auto.
+    destruct (merge_local _ _ _); auto.
+Qed.
+
+Lemma flag_no_push : forall s x c, is_push x = false -> flag_of (exec s x) c = flag_of s c.
+Proof. intros. unfold flag_of. now rewrite rej_no_push. Qed.
+
+Lemma flag_no_push_run : forall q s c, no_push q = true -> flag_of (run s q) c = flag_of s c.
+Proof.
+  induction q as [|x q IH]; intros s c Np; auto.
+  cbn [no_push forallb] in Np. apply andb_true_iff in Np as [Nx Nq]. apply negb_true_iff in Nx.
+  cbn [run fold_left]. fold (run (exec s x) q). rewrite IH; auto. now apply flag_no_push.
+Qed.
+
+(* a round whose pre-push fetch, test and merge happened with no notes push (by anybody) in
+   between is never rejected, whatever else is interleaved (outside the copy window):
+   rejections happen only when pushes overlap.  State-level form, any round (r), provided the
+   round is live (skip = false). *)
+Lemma clean_round : forall s0 r c mid1 mid2, good s0 -> c < length (clones s0) ->
+  skip s0 r c = false -> no_push mid1 = true -> no_push mid2 = true ->
+  guarded s0 ([FetchTracking r c] ++ mid1 ++ [TestLocal r c; MergeLocal r c] ++ mid2) = true ->
+  let s := run s0 ([FetchTracking r c] ++ mid1 ++ [TestLocal r c; MergeLocal r c] ++ mid2) in
+  skip s r c = false /\
+  (push_outcome s c = PCreated \/ push_outcome s c = PUpdated \/ push_outcome s c = PNoLocal).
+Proof.
+  intros s0 r c mid1 mid2 G0 L0 K0 N1 N2 G s.
+  pose proof (proj1 G0) as W0.
+  assert (Kx : forall s' r', flag_of s' c = flag_of s0 c -> r' = r -> skip s' r' c = false).
+  { intros s' r' F ->. unfold skip in *. now rewrite F. }
+  set (s1 := exec s0 (FetchTracking r c)).
+  assert (E1 : s1 = exec s0 (FetchTracking false c)) by (apply (exec_active s0 r c K0)).
+  assert (F1 : flag_of s1 c = flag_of s0 c) by (apply flag_no_push; reflexivity).
+  set (s2 := run s1 mid1).
+  assert (F2 : flag_of s2 c = flag_of s0 c) by (unfold s2; rewrite flag_no_push_run; auto).
+  set (s2' := exec s2 (TestLocal r c)).
+  assert (E2' : s2' = exec s2 (TestLocal false c)) by (apply (exec_active s2 r c (Kx _ _ F2 eq_refl))).
+  assert (F2' : flag_of s2' c = flag_of s0 c) by (unfold s2'; rewrite flag_no_push; auto).
+  set (s3 := exec s2' (MergeLocal r c)).
+  assert (E3 : s3 = exec s2' (MergeLocal false c)) by (apply (exec_active s2' r c (Kx _ _ F2' eq_refl))).
+  assert (F3 : flag_of s3 c = flag_of s0 c) by (unfold s3; rewrite flag_no_push; auto).
+  assert (Es : s = run s3 mid2).
+  { unfold s, s3, s2', s2, s1. rewrite !run_app. reflexivity. }
+  assert (Fs : flag_of s c = flag_of s0 c) by (rewrite Es, flag_no_push_run; auto).
+  split; [now apply Kx|].
+  (* guards *)
+  assert (Gs : good s3 /\ guarded s3 mid2 = true).
+  { replace s3 with (run s0 ((([FetchTracking r c] ++ mid1) ++ [TestLocal r c]) ++ [MergeLocal r c]))
+      by (unfold s3, s2', s2, s1; rewrite !run_app; reflexivity).
+    replace ([FetchTracking r c] ++ mid1 ++ [TestLocal r c; MergeLocal r c] ++ mid2)
+      with (((([FetchTracking r c] ++ mid1) ++ [TestLocal r c]) ++ [MergeLocal r c]) ++ mid2) in G
+      by (rewrite <- !app_assoc; reflexivity).
+    rewrite guarded_app in G. apply andb_true_iff in G as [Ga Gb]. split; auto. now apply good_run. }
+  destruct Gs as [G3 G2'].
+  assert (W1 : wf s1) by (apply wf_exec; auto).
+  assert (W2 : wf s2) by (apply wf_run; auto).
+  assert (W2' : wf s2') by (apply wf_exec; auto).
+  assert (W3 : wf s3) by (apply G3).
   assert (Ws : wf s) by (rewrite Es; apply wf_run; auto).
-  assert (Ls : c < length (clones s)) by (unfold s; now rewrite len_S0).
+  assert (Ls : c < length (clones s)).
+  { rewrite Es, clones_length_run. unfold s3, s2', s2, s1.
+    now rewrite !clones_length_exec, clones_length_run, clones_length_exec. }
   destruct (nth_error (clones s) c) as [cl|] eqn:Hcl. 2: { apply nth_error_None in Hcl. lia. }
   unfold push_outcome. rewrite Hcl. destruct (local cl) as [l|] eqn:Hl; auto.
-  destruct (remote s0) as [r|] eqn:Hr0.
-  - assert (T1 : remote s1 = Some r /\ tracking_of s1 c = Some r).
-    { unfold s1. cbn [exec]. destruct (nth_error (clones s0) c) as [cl0|] eqn:Hc0.
+  destruct (remote s0) as [r'|] eqn:Hr0.
+  - assert (T1 : remote s1 = Some r' /\ tracking_of s1 c = Some r').
+    { rewrite E1. cbn [exec skip andb]. destruct (nth_error (clones s0) c) as [cl0|] eqn:Hc0.
       2: { apply nth_error_None in Hc0. lia. }
       rewrite Hr0. unfold set_clone. cbn [remote]. split; auto.
       rewrite tracking_of_set, Nat.eqb_refl by auto. reflexivity. }
     destruct T1 as [R1 T1].
-    destruct (tracking_kept_run mid1 s1 c r W1 N1 R1 T1) as [R2 T2]. fold s2 in R2, T2.
+    destruct (tracking_kept_run mid1 s1 c r' W1 N1 R1 T1) as [R2 T2]. fold s2 in R2, T2.
     assert (L2 : c < length (clones s2)) by (unfold s2, s1; now rewrite clones_length_run, clones_length_exec).
     unfold tracking_of in T2. destruct (nth_error (clones s2) c) as [cl2|] eqn:Hc2; [|discriminate].
     assert (N2' : nth_error (clones s2') c = Some (mkClone (local cl2) (tracking cl2) (Some (is_some (local cl2))))).
-    { unfold s2'. cbn [exec]. rewrite Hc2. unfold set_clone. now apply nth_clone_set. }
-    destruct (merge_reaches_tracking s2' c _ r _ W2' N2' T2 eq_refl) as [l3 [Hl3 Re3]]. fold s3 in Hl3, Re3.
-    assert (OT : on_top s3 c r).
-    { split; [unfold s3, s2'; now rewrite remote_MergeLocal, remote_TestLocal|]. exists l3. auto. }
-    apply (on_top_run mid2 s3 c r G3 G2' N2) in OT. rewrite <- Es in OT.
+    { rewrite E2'. cbn [exec skip andb]. rewrite Hc2. unfold set_clone. now apply nth_clone_set. }
+    destruct (merge_reaches_tracking s2' c _ r' _ W2' N2' T2 eq_refl) as [l3 [Hl3 Re3]].
+    rewrite <- E3 in Hl3, Re3.
+    assert (OT : on_top s3 c r').
+    { split; [rewrite E3, E2'; now rewrite remote_MergeLocal, remote_TestLocal|]. exists l3. auto. }
+    apply (on_top_run mid2 s3 c r' G3 G2' N2) in OT. rewrite <- Es in OT.
     destruct OT as [Rs [l' [Hl' Re']]]. rewrite Rs.
     unfold local_of in Hl'. rewrite Hcl, Hl in Hl'. inversion Hl'. subst l'.
     destruct Ws as (Hst & Hcv & _). destruct (Hcv c cl Hcl) as [Vl _]. rewrite Hl in Vl. cbn [valid_ref] in Vl.
-    rewrite (anc_complete _ r l Hst Re' _ Vl). auto.
+    rewrite (anc_complete _ r' l Hst Re' _ Vl). auto.
   - assert (Rs : remote s = None).
-    { rewrite Es. apply remote_none_run; auto. unfold s3, s2'. rewrite remote_MergeLocal, remote_TestLocal.
-      apply remote_none_run; auto. unfold s1. now rewrite remote_no_push. }
+    { rewrite Es. apply remote_none_run; auto. rewrite E3, E2', remote_MergeLocal, remote_TestLocal.
+      apply remote_none_run; auto. rewrite E1. now rewrite remote_no_push. }
     rewrite Rs. auto.
 Qed.
 
-(* ------------------------------------------------------------------ a commit while the sync's fetch is in flight *)
-Lemma pending_FetchTracking : forall s c c', pending_of (exec s (FetchTracking c)) c' = pending_of s c'.
+Lemma no_reject_without_overlap : forall n pre r mid1 mid2 c, c < n ->
+  skip (run (init n) pre) r c = false ->
+  no_push mid1 = true -> no_push mid2 = true ->
+  guarded (init n) (pre ++ [FetchTracking r c] ++ mid1 ++ [TestLocal r c; MergeLocal r c] ++ mid2) = true ->
+  let s := run (init n) (pre ++ [FetchTracking r c] ++ mid1 ++ [TestLocal r c; MergeLocal r c] ++ mid2) in
+  push_outcome s c = PCreated \/ push_outcome s c = PUpdated \/ push_outcome s c = PNoLocal.
 Proof.
-  intros. cbn [exec]. destruct (nth_error (clones s) c) as [cl|] eqn:Hc; auto.
+  intros n pre r mid1 mid2 c Hc K N1 N2 G s.
+  apply guarded_S0_app in G as [G G2]. unfold s. rewrite run_app. fold (S0 n pre) in *.
+  apply (clean_round (S0 n pre) r c mid1 mid2); auto.
+  - now apply good_S0.
+  - now rewrite len_S0.
+Qed.
+
+(* ------------------------------------------------------------------ the retry loop *)
+Lemma flag_frame : forall s x c, is_push_of c x = false -> flag_of (exec s x) c = flag_of s c.
+Proof.
+  intros s x c H. destruct (is_push x) eqn:P; [|now apply flag_no_push].
+  destruct x as [c0 k v|r c0|r c0|r c0|r c0]; try discriminate. cbn [is_push_of] in H.
+  apply Nat.eqb_neq in H. cbn [exec]. destruct (skip s r c0); auto.
+  destruct (push_outcome s c0); auto; try (destruct (nth_error (clones s) c0); auto);
+    try (rewrite flag_set_other by auto); auto.
+Qed.
+
+Lemma no_push_of_app : forall c a b, no_push_of c (a ++ b) = true <-> no_push_of c a = true /\ no_push_of c b = true.
+Proof. intros. unfold no_push_of. rewrite forallb_app. apply andb_true_iff. Qed.
+
+Lemma no_push_app : forall a b, no_push (a ++ b) = true <-> no_push a = true /\ no_push b = true.
+Proof. intros. unfold no_push. rewrite forallb_app. apply andb_true_iff. Qed.
+
+(* foreign steps: the flag of c stays, everything else only grows *)
+Lemma gap_run : forall q s c, good s -> guarded s q = true -> no_push_of c q = true ->
+  good (run s q) /\ flag_of (run s q) c = flag_of s c /\
+  sub_keys (local_map s c) (local_map (run s q) c) /\ sub_keys (remote_map s) (remote_map (run s q)).
+Proof.
+  intros q s c G Gd Np. split; [now apply good_run|]. split; [|split].
+  - revert s G Gd. induction q as [|x q IH]; intros s G Gd; auto.
+    cbn [no_push_of forallb] in Np. apply andb_true_iff in Np as [Nx Nq]. apply negb_true_iff in Nx.
+    cbn [guarded] in Gd. apply andb_true_iff in Gd as [G1 G2].
+    cbn [run fold_left]. fold (run (exec s x) q). rewrite IH; auto.
+    + now apply flag_frame.
+    + now apply good_exec.
+  - now apply local_mono_run.
+  - apply remote_mono_run. apply G.
+Qed.
+
+Lemma count_push_zero : forall q, count_push q = 0 -> no_push q = true.
+Proof.
+  induction q as [|x q IH]; intro H; auto. cbn [count_push] in H. cbn [no_push forallb].
+  destruct (is_push x); [lia|]. cbn [negb andb]. apply IH. lia.
+Qed.
+
+Lemma count_push_pos : forall q, 1 <= count_push q -> no_push q = false.
+Proof.
+  intros q H. destruct (no_push q) eqn:N; auto. exfalso.
+  induction q as [|x q IH]; cbn [count_push] in H; [lia|].
+  cbn [no_push forallb] in N. apply andb_true_iff in N as [Nx Nq]. apply negb_true_iff in Nx.
+  rewrite Nx in H. apply IH; auto.
+Qed.
+
+Lemma count_push_app : forall a b, count_push (a ++ b) = count_push a + count_push b.
+Proof. induction a; intros; cbn [app count_push]; auto. rewrite IHa. lia. Qed.
+
+(* what one notes push does to the flag and the remote *)
+Lemma push_step : forall s c, wf s -> c < length (clones s) ->
+  (flag_of (exec s (PushRef false c)) c = false ->
+     sub_keys (local_map s c) (remote_map (exec s (PushRef false c)))) /\
+  (flag_of (exec s (PushRef false c)) c = true -> push_outcome s c = PRejected).
+Proof.
+  intros s c Hwf Lc. pose proof Hwf as (Hst & Hcl & Hrm & Hfo).
+  destruct (nth_error (clones s) c) as [cl|] eqn:Hc. 2: { apply nth_error_None in Hc. lia. }
+  assert (Cases : (push_outcome s c = PNoLocal /\ local cl = None) \/
+                  (exists l, local cl = Some l /\ (push_outcome s c = PCreated \/ push_outcome s c = PUpdated)) \/
+                  push_outcome s c = PRejected).
+  { unfold push_outcome. rewrite Hc. destruct (local cl) as [l|] eqn:Hl; auto. right.
+    destruct (remote s) as [r|] eqn:Hr; [|left; eauto].
+    destruct (Hcl c cl Hc) as [Vl _]. rewrite Hl in Vl. cbn [valid_ref] in Vl.
+    destruct (anc (length (store_of s)) (store_of s) r l) eqn:A; [left; eauto|right; auto|].
+    exfalso. exact (anc_fuel _ Hst _ r l Vl A). }
+  cbn [exec skip andb]. rewrite Hc.
+  destruct Cases as [[O Hl]|[[l [Hl O]]|O]].
+  - rewrite O, flag_set_false. split; [|discriminate]. intros _.
+    unfold local_map, local_of. rewrite Hc, Hl. apply sub_keys_nil.
+  - assert (E : match push_outcome s c with
+                | PNoClone => s | PNoLocal => set_flag s c false | PRejected => set_flag s c true
+                | PFuel => set_fuel_out s | _ => set_flag (set_remote s (local cl)) c false end
+                = set_flag (set_remote s (Some l)) c false).
+    { destruct O as [O|O]; rewrite O, Hl; reflexivity. }
+    rewrite E, flag_set_false. split; [|discriminate]. intros _.
+    unfold local_map, local_of, remote_map. rewrite Hc, Hl.
+    cbn [set_flag set_remote store_of remote]. apply sub_keys_refl.
+  - rewrite O, flag_set_true. split; [discriminate|auto].
+Qed.
+
+(* one live round with foreign steps in its gaps *)
+Lemma round_outcome : forall s0 r c ma mb, good s0 -> c < length (clones s0) -> skip s0 r c = false ->
+  no_push_of c (ma ++ mb) = true -> guarded s0 (spread r c ma mb) = true ->
+  good (run s0 (spread r c ma mb)) /\
+  (flag_of (run s0 (spread r c ma mb)) c = false ->
+     sub_keys (local_map s0 c) (remote_map (run s0 (spread r c ma mb)))) /\
+  (flag_of (run s0 (spread r c ma mb)) c = true -> 1 <= count_push (ma ++ mb)) /\
+  sub_keys (local_map s0 c) (local_map (run s0 (spread r c ma mb)) c) /\
+  sub_keys (remote_map s0) (remote_map (run s0 (spread r c ma mb))).
+Proof.
+  intros s0 r c ma mb G0 L0 K0 Np G.
+  set (body := [FetchTracking r c] ++ ma ++ [TestLocal r c; MergeLocal r c] ++ mb).
+  assert (Esp : spread r c ma mb = body ++ [PushRef r c]).
+  { unfold spread, body. rewrite <- !app_assoc. reflexivity. }
+  rewrite Esp in *. rewrite guarded_app in G. apply andb_true_iff in G as [Gb _].
+  assert (Nb : no_push_of c body = true).
+  { unfold body. apply no_push_of_app in Np as [Na Nbb].
+    unfold no_push_of in *. rewrite !forallb_app. cbn [forallb is_push_of negb andb]. now rewrite Na, Nbb. }
+  destruct (gap_run body s0 c G0 Gb Nb) as (G3 & F3 & Lm & Rm).
+  set (s3 := run s0 body) in *.
+  assert (K3 : skip s3 r c = false) by (unfold skip in *; now rewrite F3).
+  assert (L3 : c < length (clones s3)) by (unfold s3; now rewrite clones_length_run).
+  rewrite run_app. cbn [run fold_left]. fold s3.
+  rewrite (proj2 (proj2 (proj2 (exec_active s3 r c K3)))).
+  destruct (push_step s3 c (proj1 G3) L3) as [P1 P2].
+  split; [|split; [|split; [|split]]].
+  - apply good_exec; auto.
+  - intro F. eapply sub_keys_trans; [exact Lm|]. auto.
+  - intro F. specialize (P2 F).
+    destruct (count_push (ma ++ mb)) eqn:Cn; [|lia]. exfalso.
+    apply count_push_zero in Cn. apply no_push_app in Cn as [Na Nb'].
+    assert (Gc : guarded s0 ([FetchTracking r c] ++ ma ++ [TestLocal r c; MergeLocal r c] ++ mb) = true) by exact Gb.
+    destruct (clean_round s0 r c ma mb G0 L0 K0 Na Nb' Gc) as [_ Out]. fold body in Out. fold s3 in Out.
+    rewrite P2 in Out. destruct Out as [O|[O|O]]; discriminate.
+  - eapply sub_keys_trans; [exact Lm|]. apply (local_mono_run [PushRef false c] s3 c G3). reflexivity.
+  - eapply sub_keys_trans; [exact Rm|]. apply (remote_mono_run [PushRef false c] s3). apply G3.
+Qed.
+
+(* the rounds of a user-level push once the clone's push no longer stands rejected: nothing of c happens *)
+Lemma spreads_dead : forall ms s c, good s -> foreign c ms = true ->
+  guarded s (spreads false c ms) = true -> flag_of s c = false ->
+  good (run s (spreads false c ms)) /\ flag_of (run s (spreads false c ms)) c = false /\
+  sub_keys (local_map s c) (local_map (run s (spreads false c ms)) c) /\
+  sub_keys (remote_map s) (remote_map (run s (spreads false c ms))).
+Proof.
+  induction ms as [|[[ma mb] g] rest IH]; intros s c G Fo Gd F.
+  - cbn [spreads run fold_left]. split; [exact G|split; [exact F|split; apply sub_keys_refl]].
+  - cbn [spreads foreign negb] in *. apply andb_true_iff in Fo as [Fo1 Fo2].
+    apply no_push_of_app in Fo1 as [Na Fo1]. apply no_push_of_app in Fo1 as [Nb Ng].
+    (* the round: every step of c is skipped, so it is the foreign steps only *)
+    assert (Sk : forall s', flag_of s' c = false -> skip s' true c = true).
+    { intros s' F'. unfold skip. now rewrite F'. }
+    assert (Nsp : no_push_of c (ma ++ mb ++ g) = true).
+    { apply no_push_of_app. split; auto. apply no_push_of_app. auto. }
+    assert (Eq : forall s', flag_of s' c = false ->
+                 run s' (spread true c ma mb ++ g) = run s' (ma ++ mb ++ g) /\
+                 guarded s' (spread true c ma mb ++ g) = guarded s' (ma ++ mb ++ g)).
+    { intros s' F'. unfold spread. rewrite <- !app_assoc. cbn [app].
+      cbn [run fold_left guarded guard]. rewrite (proj1 (exec_skipped s' true c (Sk _ F'))).
+      fold (run s' (ma ++ TestLocal true c :: MergeLocal true c :: mb ++ PushRef true c :: g)).
+      rewrite !run_app, !guarded_app. cbn [andb].
+      (* after ma *)
+      assert (Fa : flag_of (run s' ma) c = false).
+      { clear - F' Na. revert s' F'. induction ma as [|x q IHq]; intros s' F'; auto.
+        cbn [no_push_of forallb] in Na. apply andb_true_iff in Na as [Nx Nq]. apply negb_true_iff in Nx.
+        cbn [run fold_left]. apply IHq; auto. now rewrite flag_frame. }
+      cbn [run fold_left guarded guard andb].
+      rewrite (proj1 (proj2 (exec_skipped _ true c (Sk _ Fa)))).
+      rewrite (proj1 (proj2 (proj2 (exec_skipped _ true c (Sk _ Fa))))).
+      fold (run (run s' ma) (mb ++ PushRef true c :: g)). rewrite !run_app, !guarded_app.
+      assert (Fb : flag_of (run (run s' ma) mb) c = false).
+      { clear - Fa Nb. revert Fa. generalize (run s' ma). induction mb as [|x q IHq]; intros s0 F0; auto.
+        cbn [no_push_of forallb] in Nb. apply andb_true_iff in Nb as [Nx Nq]. apply negb_true_iff in Nx.
+        cbn [run fold_left]. apply IHq; auto. now rewrite flag_frame. }
+      cbn [run fold_left guarded guard andb].
+      rewrite (proj2 (proj2 (proj2 (exec_skipped _ true c (Sk _ Fb))))).
+      split; reflexivity. }
+    rewrite app_assoc, run_app. rewrite app_assoc, guarded_app in Gd.
+    apply andb_true_iff in Gd as [Gd1 Gd2].
+    destruct (Eq s F) as [E1 E2]. rewrite E1 in *. rewrite E2 in Gd1.
+    destruct (gap_run (ma ++ mb ++ g) s c G Gd1 Nsp) as (G1 & F1 & Lm1 & Rm1). rewrite F in F1.
+    destruct (IH _ c G1 Fo2 Gd2 F1) as (G2 & F2 & Lm2 & Rm2).
+    split; [exact G2|split; [exact F2|split; eapply sub_keys_trans; eauto]].
+Qed.
+
+(* a user-level push whose rounds are live: the flag at the end tells whether the notes arrived;
+   it can stand rejected only if EVERY round was overlapped by some notes push *)
+Lemma spreads_live : forall ms s first c L, good s -> c < length (clones s) -> foreign c ms = true ->
+  guarded s (spreads first c ms) = true -> (first = true \/ flag_of s c = true) ->
+  sub_keys L (local_map s c) -> ms <> [] ->
+  good (run s (spreads first c ms)) /\
+  (flag_of (run s (spreads first c ms)) c = false -> sub_keys L (remote_map (run s (spreads first c ms)))) /\
+  (flag_of (run s (spreads first c ms)) c = true -> length ms <= overlaps ms).
+Proof.
+  induction ms as [|[[ma mb] g] rest IH]; intros s first c L G Lc Fo Gd Live HL Hne; [congruence|].
+  cbn [spreads foreign overlaps length] in *. apply andb_true_iff in Fo as [Fo1 Fo2].
+  apply no_push_of_app in Fo1 as [Na Fo1]. apply no_push_of_app in Fo1 as [Nb Ng].
+  assert (K0 : skip s (negb first) c = false).
+  { unfold skip. destruct Live as [->|F]; [reflexivity|]. rewrite F. now destruct first. }
+  rewrite guarded_app in Gd. apply andb_true_iff in Gd as [Gd1 Gd2].
+  rewrite guarded_app in Gd2. apply andb_true_iff in Gd2 as [Gd2 Gd3].
+  assert (Nab : no_push_of c (ma ++ mb) = true) by (apply no_push_of_app; auto).
+  destruct (round_outcome s (negb first) c ma mb G Lc K0 Nab Gd1) as (G1 & A1 & B1 & Lm1 & Rm1).
+  rewrite !run_app.
+  set (s1 := run s (spread (negb first) c ma mb)) in *.
+  destruct (gap_run g s1 c G1 Gd2 Ng) as (G2 & F2 & Lm2 & Rm2).
+  set (s2 := run s1 g) in *.
+  assert (L2 : c < length (clones s2)) by (unfold s2, s1; now rewrite !clones_length_run).
+  destruct (flag_of s1 c) eqn:Fl.
+  - (* still rejected: the next round is live *)
+    specialize (B1 eq_refl). apply count_push_pos in B1. rewrite B1.
+    destruct rest as [|m rest'].
+    + cbn [spreads run fold_left overlaps length]. rewrite F2.
+      split; [exact G2|]. split; [discriminate|]. intros _. lia.
+    + assert (HL2 : sub_keys L (local_map s2 c)).
+      { eapply sub_keys_trans; [exact HL|]. eapply sub_keys_trans; eauto. }
+      destruct (IH s2 false c L G2 L2 Fo2 Gd3 (or_intror F2) HL2 ltac:(discriminate)) as (G3 & A3 & B3).
+      split; [exact G3|]. split; [exact A3|]. intro F. specialize (B3 F). cbn [length] in *. lia.
+  - (* the round got through: the remaining rounds do nothing *)
+    destruct (spreads_dead rest s2 c G2 Fo2 Gd3 F2) as (G3 & F3 & Lm3 & Rm3).
+    split; [exact G3|]. split; [|rewrite F3; discriminate].
+    intros _. eapply sub_keys_trans; [exact HL|].
+    eapply sub_keys_trans; [exact (A1 eq_refl)|]. eapply sub_keys_trans; eauto.
+Qed.
+
+(* the repaired push: with fewer notes pushes falling inside its rounds than it has rounds, the
+   clone's notes are on the remote when its user-level push returns *)
+Lemma retry_succeeds : forall n pre c ms, c < n -> foreign c ms = true ->
+  guarded (init n) (pre ++ spreads true c ms) = true -> overlaps ms < length ms ->
+  flag_of (run (init n) (pre ++ spreads true c ms)) c = false /\
+  sub_keys (local_map (run (init n) pre) c) (remote_map (run (init n) (pre ++ spreads true c ms))).
+Proof.
+  intros n pre c ms Hc Fo G Ov. apply guarded_S0_app in G as [G1 G2].
+  fold (S0 n pre). rewrite run_app. fold (S0 n pre).
+  assert (Hne : ms <> []) by (intro; subst; cbn in Ov; lia).
+  destruct (spreads_live ms (S0 n pre) true c (local_map (S0 n pre) c) (good_S0 n pre G1)
+              ltac:(now rewrite len_S0) Fo G2 (or_introl eq_refl) (sub_keys_refl _) Hne) as (_ & A & B).
+  destruct (flag_of (run (S0 n pre) (spreads true c ms)) c) eqn:F.
+  - specialize (B eq_refl). lia.
+  - split; auto.
+Qed.
+
+Lemma PushNotes_spreads : forall c, PushNotes c = spreads true c [([], [], []); ([], [], []); ([], [], [])].
+Proof. reflexivity. Qed.
+
+(* convergence from "every clone's notes reached the remote", however that came about *)
+Lemma converge_from_pushed : forall n pre q1 q2,
+  single_writer_per_key pre -> guarded (init n) pre = true ->
+  no_commit q1 = true -> no_commit q2 = true ->
+  (forall c, c < n -> sub_keys (local_map (S0 n pre) c) (remote_map (S0 n (pre ++ q1)))) ->
+  (forall c, c < n -> has_block (FetchNotes c) q2) ->
+  same_map (remote_map (S0 n (pre ++ q1 ++ q2))) (writes n pre) /\
+  forall c, c < n -> same_map (local_map (S0 n (pre ++ q1 ++ q2)) c) (writes n pre).
+Proof.
+  intros n pre q1 q2 SW G NC1 NC2 HP HF.
+  assert (NC : no_commit (q1 ++ q2) = true) by (apply no_commit_app; auto).
+  assert (A : forall c k v, c < n -> In (Commit c k v) pre ->
+              has_key k (remote_map (S0 n (pre ++ q1))) = true).
+  { intros c k v Hc Hi. apply (HP c Hc). unfold has_key.
+    now rewrite (own_writes_run n pre SW G c k v Hc Hi). }
+  assert (B : forall c k v, c < n -> In (Commit c k v) pre ->
+              has_key k (remote_map (S0 n (pre ++ q1 ++ q2))) = true).
+  { intros c k v Hc Hi. rewrite app_assoc. apply no_loss_remote_keys. eauto. }
+  split.
+  - unfold remote_map. apply same_as_writes; auto.
+  - intros c Hc. unfold local_map. apply same_as_writes; auto.
+    intros c' k v Hc' Hi. destruct (HF c Hc) as [x [y Eq]].
+    fold (local_map (S0 n (pre ++ q1 ++ q2)) c).
+    assert (Gall : guarded (init n) (pre ++ q1 ++ q2) = true) by (now apply guarded_ext).
+    rewrite Eq in *.
+    replace (pre ++ q1 ++ x ++ FetchNotes c ++ y) with ((((pre ++ q1) ++ x) ++ FetchNotes c) ++ y) in *
+      by (now rewrite <- !app_assoc).
+    apply no_loss_local_keys; auto. rewrite S0_app.
+    apply fetch_block; [apply wf_S0|now rewrite len_S0|].
+    apply no_loss_remote_keys. eauto.
+Qed.
+
+(* ------------------------------------------------------------------ a commit while the sync's fetch is in flight *)
+Lemma pending_FetchTracking : forall s c c', pending_of (exec s (FetchTracking false c)) c' = pending_of s c'.
+Proof.
+  intros. cbn [exec skip andb]. destruct (nth_error (clones s) c) as [cl|] eqn:Hc; auto.
   destruct (remote s); auto. unfold pending_of, set_clone. cbn [clones].
   destruct (Nat.eq_dec c c') as [->|Ne].
   - rewrite nth_set_same by (apply nth_error_Some; congruence). now rewrite Hc.
@@ -1415,10 +1824,10 @@ Proof.
   assert (G2 : guarded (init n) ((pre ++ [Commit c k v]) ++ b) = true) by (now apply guarded_ext).
   rewrite app_assoc. split; auto.
   apply no_loss_local_keys; auto.
-  rewrite S0_app. cbn [run fold_left exec].
+  rewrite S0_app. cbn [run fold_left exec skip andb].
   destruct (nth_error (clones (S0 n pre)) c) as [cl|] eqn:E.
   2: { apply nth_error_None in E. rewrite len_S0 in E. lia. }
-  unfold has_key, local_map, set_clone, add_node. cbn [store_of clones remote fuel_out].
+  unfold has_key, local_map, set_clone, add_node. cbn [store_of clones remote fuel_out rej].
   rewrite local_of_set by (rewrite len_S0; auto). rewrite Nat.eqb_refl. cbn [local map_of].
   rewrite map_at_snoc_eq. cbn [notes]. rewrite lookup_upsert. now rewrite N.eqb_refl.
 Qed.
@@ -1440,10 +1849,10 @@ Proof.
             has_key k (local_map (S0 n (pre ++ Commit c k v :: b)) c) = true).
   { intros b Nb. apply (commit_then_keys n pre c k v b Hc G); auto. rewrite P. discriminate. }
   assert (After : forall b, no_commit b = true ->
-            guarded (init n) (pre ++ FetchTracking c :: Commit c k v :: b) = true /\
-            has_key k (local_map (S0 n (pre ++ FetchTracking c :: Commit c k v :: b)) c) = true).
+            guarded (init n) (pre ++ FetchTracking false c :: Commit c k v :: b) = true /\
+            has_key k (local_map (S0 n (pre ++ FetchTracking false c :: Commit c k v :: b)) c) = true).
   { intros b Nb.
-    replace (pre ++ FetchTracking c :: Commit c k v :: b) with ((pre ++ [FetchTracking c]) ++ [Commit c k v] ++ b)
+    replace (pre ++ FetchTracking false c :: Commit c k v :: b) with ((pre ++ [FetchTracking false c]) ++ [Commit c k v] ++ b)
       by (now rewrite <- app_assoc).
     apply commit_then_keys; auto.
     - now apply guarded_ext.
@@ -1476,7 +1885,7 @@ Lemma first_sync :
   (forall s c cl t, nth_error (clones s) c = Some cl -> local cl = None -> remote s = Some t ->
      local_of (run s (FetchNotes c)) c = Some t) /\
   (forall s c cl l, nth_error (clones s) c = Some cl -> local cl = Some l -> remote s = None ->
-     remote (exec s (PushRef c)) = Some l) /\
+     remote (exec s (PushRef false c)) = Some l) /\
   (forall n q, remote (run (init n) q) = None ->
      forall c cl, nth_error (clones (run (init n) q)) c = Some cl -> tracking cl = None).
 Proof.
